@@ -2,8 +2,9 @@ import OpcuaModel.Model.NodeIdText
 /-
   Model of the NodeID string form (C04): `(*ua.NodeID).String`,
   `ua.ParseExpandedNodeID`, `ua.ParseNodeID`, `(*ua.NodeID).Equal`, statement
-  by statement (state after the repair of C04.string-ns0-semicolon: a text
-  starting with "s=" is not split at ';').  The record mirrors the Go struct
+  by statement (state after the repairs of C04.string-ns0-semicolon — a text
+  starting with "s=" is not split at ';' — and C04.nsu-uri-semicolon — the URI
+  part is unescaped).  The record mirrors the Go struct
 
       type NodeID struct { mask NodeIDType; ns uint16; nid uint32; bid []byte; gid *GUID }
 
@@ -98,13 +99,31 @@ def atoiNs (t : Text) : Option Nat :=
     else if c = 45 then (digitsVal r).bind fun v => if v = 0 then some 0 else none
     else (digitsVal (c :: r)).bind fun v => if v ≤ 65535 then some v else none
 
+/-- `nsuUnescaper.Replace`: one left-to-right pass replacing `%3B`, `%3b` by ';' and `%25` by '%'
+    (the escapes of the reserved characters of a namespace URI, Part 6 5.3.1.10) -/
+def unescNsu : Text → Text
+  | [] => []
+  | 37 :: 51 :: 66 :: r => 59 :: unescNsu r
+  | 37 :: 51 :: 98 :: r => 59 :: unescNsu r
+  | 37 :: 50 :: 53 :: r => 37 :: unescNsu r
+  | c :: r => c :: unescNsu r
+
+/-- the text form of a namespace URI: ';' ↦ `%3B`, '%' ↦ `%25` (what a conforming writer emits;
+    the library itself never renders a URI) -/
+def escNsu : Text → Text
+  | [] => []
+  | c :: r =>
+    if c = 59 then 37 :: 51 :: 66 :: escNsu r
+    else if c = 37 then 37 :: 50 :: 53 :: escNsu r
+    else c :: escNsu r
+
 /-- the "parse namespace" switch: `(nsid, nsu)` -/
 def parseNs (nsval : Text) (tbl : Option (List Text)) : Option (Nat × Text) :=
   if [110, 115, 117, 61].isPrefixOf nsval then
     match tbl with
     | none => none
     | some ns =>
-      let nsuval := nsval.drop 4
+      let nsuval := unescNsu (nsval.drop 4)
       match ns.findIdx? (· == nsuval) with
       | some id => some (id % 65536, nsuval)
       | none => none
